@@ -2542,6 +2542,9 @@ class FileSet:
 
         resolutions = list(FileSet._temporal_resolution.values())
         superior_resolution = resolutions[highest_resolution_index - 1]
+        # Deci-, centi-, milli- and microsecond all spell the fraction of a
+        # second: the unit above each of them is the second.
+        superior_resolution = max(superior_resolution, timedelta(seconds=1))
 
         return pd.Timedelta(superior_resolution).to_pytimedelta()
 
